@@ -400,6 +400,20 @@ def _has_call(node, names):
     return False
 
 
+def _benign_guard(test):
+    """a test that only asks what kind of value the declared default is: isinstance(<name>, ...), <name> is (not) None, and
+    conjunctions / disjunctions of those. Any other condition (callable(...), an option of the field, the environment) makes the
+    copy below it conditional."""
+    if isinstance(test, ast.BoolOp):
+        return all(_benign_guard(v) for v in test.values)
+    if isinstance(test, ast.Call) and isinstance(test.func, ast.Name) and test.func.id == "isinstance" and test.args and isinstance(test.args[0], ast.Name):
+        return True
+    if isinstance(test, ast.Compare) and len(test.ops) == 1 and isinstance(test.ops[0], (ast.Is, ast.IsNot)) and isinstance(test.left, ast.Name) \
+            and isinstance(test.comparators[0], ast.Constant) and test.comparators[0].value is None:
+        return True
+    return False
+
+
 def _unconditional_copy(fn):
     """a deepcopy call that is reached whatever the field's environment mapping is: not inside (the body or the else-branch of) an
     `if` whose test looks at `env` / the environment"""
@@ -409,7 +423,7 @@ def _unconditional_copy(fn):
     def walk(stmts, tainted):
         for st in stmts:
             if isinstance(st, ast.If):
-                t = tainted or mentions_env(st.test)
+                t = tainted or mentions_env(st.test) or not _benign_guard(st.test)
                 if walk(st.body, t) or walk(st.orelse, t):
                     return True
             elif isinstance(st, (ast.For, ast.While, ast.With, ast.Try)):
@@ -440,7 +454,7 @@ def default_disciplines(repo):
         for st in m.body:
             if isinstance(st, ast.If):
                 for inner in st.body:
-                    if not isinstance(inner, ast.If) and _has_call(inner, ("deepcopy",)):
+                    if not isinstance(inner, ast.If) and _has_call(inner, ("deepcopy",)) and _benign_guard(st.test):
                         top_deep = True
             elif _has_call(st, ("deepcopy",)):
                 top_deep = True
